@@ -244,8 +244,21 @@ def B.willOf? (b : B) (cid : String) : Option (String × Msg × Nat) :=
 def B.dropWill (b : B) (cid : String) : B :=
   { b with pendingWills := b.pendingWills.filter (fun (w : String × Msg × Nat) => w.1 != cid) }
 
-/-- `sendWillLocked` -/
-def B.sendWill (b : B) (cid : String) (m : Msg) : B := (b.deliverMsg cid m []).1
+/-- `sendWillLocked`: a will with RETAIN updates the retained store, then `deliverMessage` -/
+def B.sendWill (b : B) (cid : String) (m : Msg) : B :=
+  let b := if m.retained then
+      (if m.plen == 0 then { b with retained := b.retained.filter (·.1 != m.topic) }
+       else { b with retained := (m.topic, m) :: b.retained.filter (·.1 != m.topic) })
+    else b
+  (b.deliverMsg cid m []).1
+
+/-- `sessionTerminatedLocked`: a pending delayed will is published (the timer goroutine is signalled and sends it
+    as soon as the lock is free), and the session is removed -/
+def B.terminateS (b : B) (cid : String) : B :=
+  let b' := b.terminate cid
+  match b.willOf? cid with
+  | some (_, w, _) => (b'.dropWill cid).sendWill cid w
+  | none => b'
 
 /-- `unregisterClient` for the connection `conn` (socket gone); `force` = TerminateSession -/
 def B.unregister (b : B) (conn : String) (force : Bool) : B :=
@@ -254,7 +267,7 @@ def B.unregister (b : B) (conn : String) (force : Bool) : B :=
   | some c =>
     let b := b.dropCli conn
     match b.sess? c.cid with
-    | none => b.terminate c.cid
+    | none => b.terminateS c.cid
     | some s0 =>
       let s := if !force && c.v == 5 then
           match c.discExpiry with
@@ -276,7 +289,7 @@ def B.unregister (b : B) (conn : String) (force : Bool) : B :=
             else b.sendWill c.cid w
         else b
       if store then { b with offline := (c.cid, b.now + s.expiry * 1000) :: b.offline.filter (·.1 != c.cid) }
-      else b.terminate c.cid
+      else b.terminateS c.cid
 
 /-- the broker closes `conn` after an error: optional DISCONNECT (v5, connected), then the socket -/
 def B.kick (b : B) (conn : String) (code : Option Nat) : B :=
@@ -326,11 +339,7 @@ def B.connect (b : B) (r : ConnectReq) : B :=
   -- old session ended: terminate, fire a delayed will now
   let b := match oldS with
     | some _ =>
-      if !resume then
-        let b := b.terminate r.cid
-        match b.willOf? r.cid with
-        | some (_, w, _) => (b.dropWill r.cid).sendWill r.cid w
-        | none => b
+      if !resume then b.terminateS r.cid
       else b.dropWill r.cid
     | none => b
   let queue : Queue.Q := match oldS with
@@ -515,7 +524,7 @@ def B.pubrecOut (b : B) (conn : String) (id code : Nat) : B :=
         | none => b
       b.emit conn false (.pubrel id)
 
-def B.disconnectIn (b : B) (conn : String) (se : Option Nat) : B :=
+def B.disconnectIn (b : B) (conn : String) (se : Option Nat) (code : Nat := 0) : B :=
   match b.cli? conn with
   | none => b
   | some c =>
@@ -529,7 +538,8 @@ def B.disconnectIn (b : B) (conn : String) (se : Option Nat) : B :=
         if s.expiry == 0 && disExp != 0 then b
         else
           let b := if disExp != 0 then b.setSess { s with expiry := disExp } else b
-          b.setCli { c with discExpiry := some se, cleanWill := true }
+          -- reason code 0x04 "Disconnect with Will Message" keeps the will
+          b.setCli { c with discExpiry := some se, cleanWill := code != 4 }
     else b.setCli { c with discExpiry := some none, cleanWill := true }
 
 /-- the client's socket is gone (after DISCONNECT, or abruptly) -/
@@ -541,10 +551,10 @@ def B.closeIn (b : B) (conn : String) : B :=
 def B.apiTerminate (b : B) (cid : String) : B :=
   match b.cliOf? cid with
   | some c => (b.emit c.conn false .closed).unregister c.conn true
-  | none => if (b.offline.find? (·.1 == cid)).isSome then b.terminate cid else b
+  | none => if (b.offline.find? (·.1 == cid)).isSome then b.terminateS cid else b
 
 def B.apiExpire (b : B) : B :=
-  (b.offline.filter (fun cd => b.now > cd.2)).foldl (fun bb cd => bb.terminate cd.1) b
+  (b.offline.filter (fun cd => b.now > cd.2)).foldl (fun bb cd => bb.terminateS cd.1) b
 
 def B.apiBackdate (b : B) (cid : String) (secs : Nat) : B :=
   match b.sess? cid with
